@@ -228,7 +228,7 @@ VARIANTS = {
     ],
     "C18": [
         V("non-strict comparison", CB + "early_stopping.py", "self.deviation() < self.tolerance", "self.deviation() <= self.tolerance"),
-        V("relative to the current value", CB + "early_stopping.py", "self._change_in_metric() / self.value_getter(self.quantity_name, -self.patience - 1)", "self._change_in_metric() / self.value_getter(self.quantity_name)"),
+        V("relative to the current value", CB + "early_stopping.py", "abs(self._change_in_metric() / reference)", "abs(self._change_in_metric() / self.value_getter(self.quantity_name))"),
         V("variance instead of standard deviation", CB + "early_stopping.py", "np.sqrt(self.variance_getter(self.quantity_name, -self.patience - 1))", "self.variance_getter(self.quantity_name, -self.patience - 1)"),
         V("criterion table mixed up", CB + "early_stopping.py", "self._absolute_change", "self._relative_change"),
         V("last_epoch not recorded", CB + "early_stopping.py", "self.last_epoch = epoch", "pass"),
